@@ -197,11 +197,20 @@ func runJob(j job, seed uint64, quick bool) (out []result) {
 		n := len(steps)
 		add(runH3(sp, "none", n, false))
 		for pos := 0; pos <= n; pos++ {
+			if sp.Limit && pos > 1 {
+				// the scenario is about the wait for a stream; the later phases are driven without a
+				// stream limit (with a limit of ONE stream the follow-up depends on how soon the peer
+				// hands the cancelled request's stream back - observed once to exceed 20 s under load)
+				break
+			}
 			for _, k := range kindsAt(pos, seed, quick) {
 				add(runH3(sp, k, pos, false))
 			}
 		}
 		for pos := 1; pos <= n; pos++ {
+			if sp.Limit {
+				break
+			}
 			if len(steps[pos-1].labels) == 0 || rng.Intn(racyEvery) != 0 {
 				continue
 			}
